@@ -51,6 +51,8 @@ func init() {
 			return []string{"default", "nocgo", "nolz4", "nozstd", "asan", "race"}
 		},
 		Run: run,
+		// single-threaded workloads: keep the Go runtime of the 16 parallel children from fighting over the cores
+		Env: func(tier, variant string) []string { return []string{"GOMAXPROCS=2"} },
 		Require: []string{"calls_lz4", "calls_zstd", "calls_null", "calls_scratch_gpfile", "calls_scratch_too_small",
 			"calls_incompressible", "calls_reused_instance", "calls_fresh_decoder", "calls_empty_input", "calls_ge_64k"},
 	})
